@@ -404,6 +404,9 @@ func runC02(r *core.Run) {
 		mu.Unlock()
 	}
 	if r.Variant == "" {
+		// the whole workload once more in the GOARCH=386 build of this monitor (see ./check)
+		r.RunVariantChild("arch386@16", 30*time.Minute, false)
+		r.Obs("arch386_child", "run")
 		for _, v := range append([]string{"decfirst@3", "decfirst+rev@1", "rev@6", "warm@2", "atinit+burst@1", "atinit+burst@16", "atinit+burst@2", "imgfirst@4", "imgfirst+rev@16"}, burstVariants...) {
 			r.RunVariantChild(v, 10*time.Minute, false)
 		}
